@@ -835,7 +835,9 @@ def World.step (w : World) (line : String) : World :=
     w.stores.foldl (fun w (p, _) => if p ≥ 1000 then w else
       let o := w.obsOf p
       if !o.seen then w else
-      let missing := w.acked.filter (fun n => !o.values.contains n)
+      -- (`except=`: entries whose block nobody serves at this point — not reachable, not owed)
+      let except := namesToNums (arg toks "except")
+      let missing := w.acked.filter (fun n => !o.values.contains n && !except.contains n)
       if missing.isEmpty then w else
         w.fail "C11" "wedged" s!"peer {p} still lacks {showNums (sortNums missing)} after an uncancelled request for the same or newer heads") w
   | "final10" =>
